@@ -419,8 +419,12 @@ def splitAt (p : UInt8 → Bool) : Bytes → Bytes × Bytes
   | b :: r => if p b then ([], b :: r) else let (a, c) := splitAt p r; (b :: a, c)
 
 /-- position of the last `@` -/
-def lastAt (s : Bytes) : Option Nat :=
-  (List.range s.length).foldl (fun acc i => if s[i]? == some 64 then some i else acc) none
+def lastAt : Bytes → Option Nat
+  | [] => none
+  | b :: r =>
+    match lastAt r with
+    | some i => some (i + 1)
+    | none => if b == 64 then some 0 else none
 
 /-- `parse_host`'s scan: up to a `:` outside square brackets -/
 def hostSpan : Bytes → Bool → Bytes × Bytes
@@ -461,40 +465,34 @@ def parseUrl (idna : Bytes → Option Bytes) (protocol : Protocol) (after : Byte
   let s := s.dropWhile (fun b => b == 47 || b == 92)
   let (authority, tail) := splitAt isAuthorityEnd s
   -- user info: everything before the LAST `@` of the authority
-  let split : Option (Bytes × Option Bytes × Bytes) :=
+  -- (`@` first and nothing behind it but the end of the authority: `EmptyHost`; the same falls out of the empty host below)
+  let (user, pw, hostport) : Bytes × Option Bytes × Bytes :=
     match lastAt authority with
-    | none => some ([], none, authority)
-    | some i =>
-      let hostport := authority.drop (i + 1)
-      -- (`@` first and nothing behind it but the end of the authority: `EmptyHost`; the same falls out of the empty host below)
-      let (u, p) := parseUserinfo (authority.take i)
-      some (u, p, hostport)
-  match split with
-  | none => .err .invalidInput
-  | some (user, pw, hostport) =>
-    let (hostText, afterHost) := hostSpan hostport false
-    if hostText.isEmpty then .err .invalidInput
-    else
-      match parseHost idna hostText with
+    | none => ([], none, authority)
+    | some i => let (u, p) := parseUserinfo (authority.take i); (u, p, authority.drop (i + 1))
+  let (hostText, afterHost) := hostSpan hostport false
+  if hostText.isEmpty then .err .invalidInput
+  else
+    match parseHost idna hostText with
+    | none => .err .invalidInput
+    | some host =>
+      let portRes : Option (Option Nat × Bytes) :=
+        match afterHost with
+        | 58 :: r => parsePort protocol.defaultPort (r ++ tail)
+        | _ => some (none, afterHost ++ tail)
+      match portRes with
       | none => .err .invalidInput
-      | some host =>
-        let portRes : Option (Option Nat × Bytes) :=
-          match afterHost with
-          | 58 :: r => parsePort protocol.defaultPort (r ++ tail)
-          | _ => some (none, afterHost ++ tail)
-        match portRes with
-        | none => .err .invalidInput
-        | some (port, rest) =>
-          let (path, rest) := parsePath true rest
-          let (query, rest) : Option Bytes × Bytes :=
-            match rest with
-            | 63 :: r => let (q, r2) := splitAt (· == 35) r; (some (pctEncode setSpecialQuery q), r2)
-            | _ => (none, rest)
-          let fragment : Option Bytes :=
-            match rest with
-            | 35 :: r => some (pctEncode setFragment r)
-            | _ => none
-          .ok ⟨protocol, user, pw, host, port, path, query, fragment⟩
+      | some (port, rest) =>
+        let (path, rest) := parsePath true rest
+        let (query, rest) : Option Bytes × Bytes :=
+          match rest with
+          | 63 :: r => let (q, r2) := splitAt (· == 35) r; (some (pctEncode setSpecialQuery q), r2)
+          | _ => (none, rest)
+        let fragment : Option Bytes :=
+          match rest with
+          | 35 :: r => some (pctEncode setFragment r)
+          | _ => none
+        .ok ⟨protocol, user, pw, host, port, path, query, fragment⟩
 
 /-- `Url::set_path` (special scheme): the path parser in setter context on the given text; query and fragment stay -/
 def Url.setPath (u : Url) (path : Bytes) : Url :=
